@@ -226,28 +226,43 @@ where
 
     async fn dump_in_memory(&mut self, blob_size: u64) -> Result<usize> {
         if let State::InMemory(headers) = &self.inner {
-            let headers = {
+            let data = {
                 let mut headers = headers.write().expect("rwlock");
-                std::mem::take(&mut *headers).headers
+                std::mem::take(&mut *headers)
             };
-            if headers.len() == 0 {
+            if data.headers.len() == 0 {
                 return Ok(0);
             }
-            debug!("blob index simple in memory headers {}", headers.len());
-            let (meta_buf, bloom_offset) = self.serialize_filters()?;
-            self.bloom_offset = Some(bloom_offset as u64);
-            let findex = FileIndex::from_records(
-                self.name.as_path(),
-                self.iodriver.clone(),
-                &headers,
-                meta_buf,
-                self.params.recreate_file,
-                blob_size,
-            )
-            .await?;
-            let size = findex.file_size() as usize;
-            self.inner = State::OnDisk(findex);
-            return Ok(size);
+            debug!("blob index simple in memory headers {}", data.headers.len());
+            let dump_result = async {
+                let (meta_buf, bloom_offset) = self.serialize_filters()?;
+                let findex = FileIndex::from_records(
+                    self.name.as_path(),
+                    self.iodriver.clone(),
+                    &data.headers,
+                    meta_buf,
+                    self.params.recreate_file,
+                    blob_size,
+                )
+                .await?;
+                Ok::<_, anyhow::Error>((findex, bloom_offset))
+            }
+            .await;
+            return match dump_result {
+                Ok((findex, bloom_offset)) => {
+                    self.bloom_offset = Some(bloom_offset as u64);
+                    let size = findex.file_size() as usize;
+                    self.inner = State::OnDisk(findex);
+                    Ok(size)
+                }
+                Err(e) => {
+                    // The index file could not be written: keep serving the records from memory
+                    if let State::InMemory(headers) = &self.inner {
+                        *headers.write().expect("rwlock") = data;
+                    }
+                    Err(e)
+                }
+            };
         }
         Ok(0)
     }
